@@ -143,6 +143,34 @@ def ann_optional(a: Optional[ast.AST]) -> bool:
     return False
 
 
+def _implies_nonnull(test: ast.AST, pol: bool, v: str, depth: int = 0) -> bool:
+    """Does `test` evaluating to `pol` imply that local `v` is not None?"""
+    if depth > 6:
+        return False
+    if isinstance(test, ast.Name) and test.id == v:
+        return pol
+    if isinstance(test, ast.UnaryOp) and isinstance(test.op, ast.Not):
+        return _implies_nonnull(test.operand, not pol, v, depth + 1)
+    if isinstance(test, ast.Compare) and len(test.ops) == 1 and isinstance(test.left, ast.Name) and test.left.id == v:
+        c0 = test.comparators[0]
+        is_none = isinstance(c0, ast.Constant) and c0.value is None
+        if is_none and isinstance(test.ops[0], ast.IsNot):
+            return pol
+        if is_none and isinstance(test.ops[0], ast.Is):
+            return not pol
+        if isinstance(test.ops[0], (ast.Eq, ast.In)) and not is_none:
+            return pol      # equal to / member of something concrete
+    if isinstance(test, ast.Call) and isinstance(test.func, ast.Name) and test.func.id in ('isinstance', 'len', 'callable') and test.args and \
+            isinstance(test.args[0], ast.Name) and test.args[0].id == v:
+        return pol
+    if isinstance(test, ast.BoolOp):
+        if isinstance(test.op, ast.And) and pol:
+            return any(_implies_nonnull(x, True, v, depth + 1) for x in test.values)
+        if isinstance(test.op, ast.Or) and not pol:
+            return any(_implies_nonnull(x, False, v, depth + 1) for x in test.values)
+    return False
+
+
 class Source:
     __slots__ = ('func', 'node', 'excs', 'label', 'kind')
 
@@ -287,6 +315,18 @@ class Escape:
                 self.sources.append(src)
                 for c in classes:
                     items.append((n, c, src))
+            # T4v: a local that only ever holds the result of Optional-returning functions, used where None is not acceptable,
+            #      without a dominating non-None test
+            for src in self._optional_variable_uses(f):
+                self.sources.append(src)
+                for c in src.excs:
+                    items.append((src.node, c, src))
+            # T5: `a, b = L` after a length test on L that does not establish len(L) == 2 (the code believes the length can
+            #     vary but checks the wrong bound)
+            for src in self._insufficient_length_guards(f):
+                self.sources.append(src)
+                for c in src.excs:
+                    items.append((src.node, c, src))
             # T2: declared raises of the function itself (abstract / documented contract)
             if f.qn in self.declared:
                 src = Source(f, f.node, list(self.declared[f.qn]), 'declared contract', 'T2')
@@ -296,6 +336,138 @@ class Escape:
             self.local[f.qn] = items
         for s in self.sources:
             self._src_index[id(s)] = s
+
+    # ------------------------------------------------------------ T4v / T5
+    def _optional_variable_uses(self, f: Func) -> List['Source']:
+        from .cfg import CFG
+        from .util import guard_tests
+        r = self.repo
+        if isinstance(f.node, ast.Lambda):
+            return []
+        cand: Dict[str, List[ast.Call]] = {}
+        disq: Set[str] = set(p.arg for p in f.params())
+        for n in f.walk():
+            tgts: List[ast.AST] = []
+            val: Optional[ast.AST] = None
+            if isinstance(n, ast.Assign):
+                tgts, val = list(n.targets), n.value
+            elif isinstance(n, (ast.AnnAssign, ast.AugAssign)):
+                tgts, val = [n.target], n.value
+            elif isinstance(n, (ast.For, ast.comprehension)):
+                for x in ast.walk(n.target):
+                    if isinstance(x, ast.Name):
+                        disq.add(x.id)
+            elif isinstance(n, (ast.With,)):
+                for it in n.items:
+                    if it.optional_vars is not None:
+                        for x in ast.walk(it.optional_vars):
+                            if isinstance(x, ast.Name):
+                                disq.add(x.id)
+            elif isinstance(n, ast.NamedExpr) and isinstance(n.target, ast.Name):
+                disq.add(n.target.id)
+            elif isinstance(n, ast.ExceptHandler) and n.name:
+                disq.add(n.name)
+            for t in tgts:
+                if isinstance(t, ast.Name):
+                    ok = False
+                    if isinstance(val, ast.Call) and not isinstance(n, ast.AugAssign):
+                        cal, how = r.callees(val, f)
+                        if cal and how in ('direct', 'method') and all(not isinstance(g.node, ast.Lambda) and ann_optional(g.node.returns) for g in cal):
+                            ok = True
+                    if ok:
+                        cand.setdefault(t.id, []).append(val)  # type: ignore[arg-type]
+                    else:
+                        disq.add(t.id)
+                else:
+                    for x in ast.walk(t):
+                        if isinstance(x, ast.Name):
+                            disq.add(x.id)
+        out: List[Source] = []
+        names = [v for v in cand if v not in disq]
+        if not names:
+            return out
+        cfg = None
+        for v in names:
+            for u in f.walk():
+                if not (isinstance(u, ast.Name) and u.id == v and isinstance(u.ctx, ast.Load)):
+                    continue
+                ctx = self._none_sensitive_use(u)
+                if ctx is None:
+                    continue
+                guarded = any(_implies_nonnull(t, pol, v) for t, pol in guard_tests(u, f.node))
+                if not guarded:
+                    if cfg is None:
+                        cfg = CFG(f)
+                    try:
+                        st = cfg.stmt_of(u)
+                        guarded = any(_implies_nonnull(t, pol, v) for t, pol in cfg.dominating_tests(st))
+                        if not guarded:
+                            # `assert v is not None` / `assert v` dominating the use
+                            for a in f.walk():
+                                if isinstance(a, ast.Assert) and _implies_nonnull(a.test, True, v) and a is not st and cfg.dominates(a, st, no_exc=True):
+                                    guarded = True
+                    except AttributeError:
+                        guarded = True
+                if guarded:
+                    continue
+                classes = ['AttributeError'] if ctx == 'attribute access' else ['TypeError']
+                out.append(Source(f, u, classes, f'Optional result of {norm(cand[v][0].func)[:30]}() in `{v}` used in {ctx} without a None test', 'T4'))
+        return out
+
+    @staticmethod
+    def _none_sensitive_use(u: ast.Name) -> Optional[str]:
+        p = getattr(u, '_parent', None)
+        if isinstance(p, ast.Attribute) and p.value is u:
+            return 'attribute access'
+        if isinstance(p, ast.Subscript) and p.value is u:
+            return 'subscript'
+        if isinstance(p, ast.Call) and p.func is u:
+            return 'call'
+        if isinstance(p, ast.BinOp) and not isinstance(p.op, ast.BitOr):
+            return 'arithmetic'
+        if isinstance(p, (ast.For, ast.comprehension)) and p.iter is u:
+            return 'iteration'
+        if isinstance(p, ast.Starred):
+            return 'unpacking'
+        if isinstance(p, ast.Call) and u in p.args:
+            nm = p.func.attr if isinstance(p.func, ast.Attribute) else p.func.id if isinstance(p.func, ast.Name) else ''
+            if nm in ('join', 'len', 'sorted', 'list', 'tuple', 'set', 'enumerate', 'zip', 'sum', 'min', 'max', 'any', 'all', 'iter', 'next', 'reversed'):
+                return f'{nm}(...)'
+        if isinstance(p, ast.Compare) and any(isinstance(o, (ast.Lt, ast.Gt, ast.LtE, ast.GtE)) for o in p.ops):
+            return 'ordering comparison'
+        return None
+
+    def _insufficient_length_guards(self, f: Func) -> List['Source']:
+        from .cfg import CFG
+        out: List[Source] = []
+        if isinstance(f.node, ast.Lambda):
+            return out
+        cfg = None
+        for a in f.walk():
+            if not (isinstance(a, ast.Assign) and isinstance(a.targets[0], (ast.Tuple, ast.List)) and isinstance(a.value, ast.Name)):
+                continue
+            tg = a.targets[0]
+            if any(isinstance(e, ast.Starred) for e in tg.elts):
+                continue
+            n = len(tg.elts)
+            lname = a.value.id
+            lens = [t for t in f.walk() if isinstance(t, ast.Compare) and isinstance(t.left, ast.Call) and isinstance(t.left.func, ast.Name)
+                    and t.left.func.id == 'len' and t.left.args and isinstance(t.left.args[0], ast.Name) and t.left.args[0].id == lname
+                    and isinstance(t.comparators[0], ast.Constant)]
+            if not lens:
+                continue        # no stated belief about the length: relies on an invariant, not decided
+            if cfg is None:
+                cfg = CFG(f)
+            tests = cfg.dominating_tests(a)
+            exact = False
+            for t, pol in tests:
+                for c in ([t] if isinstance(t, ast.Compare) else [x for x in ast.walk(t) if isinstance(x, ast.Compare)] if (isinstance(t, ast.BoolOp) and ((isinstance(t.op, ast.And) and pol) or (isinstance(t.op, ast.Or) and not pol))) else []):
+                    if c in lens and isinstance(c.comparators[0], ast.Constant) and c.comparators[0].value == n:
+                        if (isinstance(c.ops[0], ast.Eq) and pol) or (isinstance(c.ops[0], ast.NotEq) and not pol):
+                            exact = True
+            if not exact:
+                out.append(Source(f, a, ['ValueError'], f'unpacking {n} value(s) from `{lname}` whose length test does not establish len == {n}', 'T5'))
+        return out
 
     @staticmethod
     def _none_sensitive_context(c: ast.Call) -> Optional[str]:
@@ -537,11 +709,12 @@ class Escape:
         e = Escape(repo, _CG(repo), {}, {})
         got = {(s.func.name, s.kind) for s in e.sources}
         problems = []
-        for want in (('bad_arith', 'T4'), ('bad_attr', 'T4'), ('bad_format', 'T1')):
+        for want in (('bad_arith', 'T4'), ('bad_attr', 'T4'), ('bad_format', 'T1'), ('bad_var', 'T4'), ('bad_unpack', 'T5')):
             if want not in got:
                 problems.append(f'fixture source {want} not detected')
-        if ('good_arith', 'T4') in got:
-            problems.append('guarded fixture good_arith wrongly flagged')
+        for ok_name, k in (('good_arith', 'T4'), ('good_var', 'T4'), ('good_unpack', 'T5')):
+            if (ok_name, k) in got:
+                problems.append(f'guarded fixture {ok_name} wrongly flagged')
         return problems
 
     # ------------------------------------------------------------ queries
